@@ -116,11 +116,12 @@ theorem evalCH_call_sub {ms : MacroSem} {csubs : CSubEnv} {f : Nat} {σ σ' σr 
     {args : List CExpr} {ret : CT} {params : List CT} {vs : List Val} {v : Val} {sub : CSub}
     (hargs : evalCHArgs ms csubs f σ args params = .ok (vs, σ')) (hsub : lookupS name csubs = some sub)
     (hbody : execCHs ms csubs f sub.body { σ' with locals := (sub.params.map (·.1)).zip vs } = .ok σr)
-    (hret : lookupS "$ret" σr.locals = some v) :
+    (hret : lookupS "$ret" σr.locals = some v) {v' : Val}
+    (hconv : convC { signed := false, width := 64 } sub.ret v = .ok v') :
     evalCH ms csubs (f+1) σ (.call name args ret params) =
-      .ok (v, { σ' with mem := σr.mem, stores := σr.stores, new := σr.new, written := σr.written }) := by
+      .ok (v', { σ' with mem := σr.mem, stores := σr.stores, new := σr.new, written := σr.written }) := by
   rw [evalCH]
-  simp only [hargs, hsub, hbody, hret, bind, Except.bind]
+  simp only [hargs, hsub, hbody, hret, hconv, bind, Except.bind]
 
 /-- C-side isolation: a call changes no local of the caller beyond what its arguments do -/
 theorem evalCH_call_locals {ms : MacroSem} {csubs : CSubEnv} {f : Nat} {σ σ2 : MState} {name : String}
@@ -134,7 +135,8 @@ theorem evalCH_call_locals {ms : MacroSem} {csubs : CSubEnv} {f : Nat} {σ σ2 :
   split at h
   · obtain ⟨σr, _, h⟩ := bind_ok h
     split at h
-    · injection h with h; injection h with _ h; subst h; exact ⟨rfl, rfl⟩
+    · obtain ⟨v', _, h⟩ := bind_ok h
+      injection h with h; injection h with _ h; subst h; exact ⟨rfl, rfl⟩
     · cases h
   · split at h
     · injection h with h; injection h with _ h; subst h; exact ⟨rfl, rfl⟩
